@@ -30,13 +30,16 @@ mview == <<view, pool, clean, nsub>>
 \* serialized sizes of the templates (bytes), measured on the real transactions;
 \* the driver refuses to run if they differ
 TxSize(t) == CASE t = "T1" -> 293 [] t = "T2" -> 227 [] t = "T3" -> 227 [] t = "T4" -> 265
-               [] t = "T5" -> 227 [] t = "T6" -> 293 [] t = "T7" -> 367 [] OTHER -> 0
+               [] t = "T5" -> 227 [] t = "T6" -> 293 [] t = "T7" -> 367
+               [] t \in {"R1", "R2", "R3", "R4"} -> 459 [] OTHER -> 0
 
 RECURSIVE SumSize(_)
 SumSize(P) == IF P = {} THEN 0 ELSE LET t == CHOOSE x \in P : TRUE IN TxSize(t) + SumSize(P \ {t})
 
-CtxOK(t, chain) == InSet(t) \subseteq UtxoOf(chain) /\ t \notin TxsOf(chain)
-Conflicts(t, P) == \E u \in P : InSet(u) \cap InSet(t) # {}
+CtxOK(t, chain) == /\ InSet(t) \subseteq UtxoOf(chain) /\ t \notin TxsOf(chain)
+                   /\ Res(t) \cap ResOn(chain) = {}
+\* conflict slots: spent outpoints and every unique resource
+Conflicts(t, P) == \E u \in P : InSet(u) \cap InSet(t) # {} \/ Res(u) \cap Res(t) # {}
 
 \* appendToTxPool, in the code's order of checks
 SubmitResult(t, P, chain) ==
@@ -111,7 +114,7 @@ MSpec == MInit /\ [][MNext]_mvars
 ---------------------------------------------------------------------------
 (* C34 / C06 (mempool half) *)
 \* no two pool transactions spend the same outpoint
-PoolConflictFree == \A u, v \in pool : u # v => InSet(u) \cap InSet(v) = {}
+PoolConflictFree == \A u, v \in pool : u # v => InSet(u) \cap InSet(v) = {} /\ Res(u) \cap Res(v) = {}
 \* after the post-block cleanup every pool transaction is still valid on the
 \* active chain (its inputs are unspent there, it is not already on chain)
 PoolValidWhenClean == clean => \A u \in pool : CtxOK(u, main)
